@@ -28,7 +28,7 @@ _TIER = os.environ.get("VERIF_TIER", "quick")
 
 def execute(case):
     WORK.mkdir(parents=True, exist_ok=True)
-    out = ac.run_cycles(case, WORK)
+    out = ac.run_cycles(case, WORK, subclass_ok=True)
     if not out["hooks"]:
         raise ac.Machinery("SOUNDEVENT_VERIF hooks are not active (soundevent._verif missing or disabled)")
     # the hooks are considered missing only when a successful save recorded NO event at all; a save that records calls and
